@@ -285,14 +285,39 @@ func runC13(cx *Ctx, r *Report) {
 			}
 			// closure form: the iterating call receives the per-entry body
 			var body *Frame
+			var bodies []*Frame
 			for _, cf := range cw.frames {
 				if cf.MC == nil || cf.ViaSite == nil {
 					continue
 				}
 				for f := it.ev.Fr; f != nil; f = f.Parent {
 					if f.Call != nil && ssa.Instruction(f.Call) == cf.ViaSite && f.Parent == cf.Via {
-						body = cf
+						bodies = append(bodies, cf)
 					}
+				}
+			}
+			// several closures on the iterating chain: an iterator wrapper hands an adapter
+			// closure (`func(id, c) { op(id, &c) }`) to a shared helper. The body is the
+			// closure that deletes; every other one must forward to its captured callback
+			// on all paths.
+			adaptersOK := true
+			for _, cf := range bodies {
+				has := false
+				for _, d := range dels {
+					if a, _ := closureAncestor(d.ev); a == cf {
+						has = true
+					}
+				}
+				if has || len(bodies) == 1 {
+					body = cf
+				}
+			}
+			if body == nil && len(bodies) > 0 {
+				body = bodies[len(bodies)-1]
+			}
+			for _, cf := range bodies {
+				if cf != body && !mustPass(cf.Fn, forwardsToCallback) {
+					adaptersOK = false
 				}
 			}
 			var mine []hev
@@ -311,7 +336,7 @@ func runC13(cx *Ctx, r *Report) {
 					}
 				}
 				// every path through the body passes one of the deleting sites
-				okMust = len(sites) > 0 && mustPass(body.Fn, func(x ssa.Instruction) bool { return sites[x] })
+				okMust = adaptersOK && len(sites) > 0 && mustPass(body.Fn, func(x ssa.Instruction) bool { return sites[x] })
 			} else {
 				// loop form: the handler consumes the iterator itself
 				for L := it.ev.Fr; L != nil && !okMust; L = L.Parent {
@@ -433,15 +458,30 @@ func bodyOfQueue(cw *c13Walk, q string) *ssa.Function {
 		if (it.ev.Kind != "store.iter" && it.ev.Kind != "store.riter") || !hasPrefix(it.ev, q) {
 			continue
 		}
+		// of several closures on the iterating chain (adapter closures of iterator
+		// wrappers) the body is the one the effects happen under
+		var best *Frame
+		bestN := -1
 		for _, cf := range cw.frames {
 			if cf.MC == nil || cf.ViaSite == nil {
 				continue
 			}
 			for f := it.ev.Fr; f != nil; f = f.Parent {
 				if f.Call != nil && ssa.Instruction(f.Call) == cf.ViaSite && f.Parent == cf.Via {
-					return cf.Fn
+					n := 0
+					for _, x := range cw.evs {
+						if a, _ := closureAncestor(x.ev); a == cf {
+							n++
+						}
+					}
+					if n > bestN {
+						best, bestN = cf, n
+					}
 				}
 			}
+		}
+		if best != nil {
+			return best.Fn
 		}
 	}
 	return nil
@@ -969,6 +1009,14 @@ func (cx *Ctx) reviewedDivisor(s abortSite) string {
 							}
 						}
 					}
+					if al, ok := v.(*ssa.Alloc); ok && al.Referrers() != nil {
+						// a local struct kept in memory (`header := ctx.BlockHeader()`): what was stored
+						for _, ref := range *al.Referrers() {
+							if st, ok := ref.(*ssa.Store); ok && st.Addr == al {
+								sl(st.Val, d+1)
+							}
+						}
+					}
 					if fv, ok := v.(*ssa.FreeVar); ok {
 						// captured by a closure: the binding at the creation site
 						if par := fv.Parent().Parent(); par != nil {
@@ -1331,4 +1379,27 @@ func init() {
 			}
 		}
 	}
+}
+
+// forwardsToCallback: a call of a function value the closure captured or received
+// (the adapter's `op(...)`).
+func forwardsToCallback(x ssa.Instruction) bool {
+	c, ok := x.(*ssa.Call)
+	if !ok || c.Common().IsInvoke() {
+		return false
+	}
+	v := c.Common().Value
+	for {
+		u, isLoad := v.(*ssa.UnOp)
+		if !isLoad || u.Op != token.MUL {
+			break
+		}
+		v = u.X
+	}
+	switch v.(type) {
+	case *ssa.FreeVar, *ssa.Parameter:
+		_, isSig := c.Common().Value.Type().Underlying().(*types.Signature)
+		return isSig
+	}
+	return false
 }
